@@ -371,6 +371,28 @@ impl AST {
                                 return;
                             }
                         };
+                        let placeholders = parts
+                            .iter()
+                            .filter(|p| matches!(p, TemplatePart::PlaceHolder(_)))
+                            .count();
+                        if placeholders != elems.len() {
+                            ops.push(
+                                Op::Val(Primitive::Str(
+                                    format!(
+                                        "Format string has {} placeholders but {} arguments were given",
+                                        placeholders,
+                                        elems.len()
+                                    )
+                                    .into(),
+                                )),
+                                def.pos.clone(),
+                            );
+                            ops.push(Op::Bang, def.pos);
+                            return;
+                        }
+                        if parts.is_empty() {
+                            parts.push(TemplatePart::Str(Vec::new()));
+                        }
                         // We need to push process these in reverse order for the
                         // vm to process things correctly;
                         elems.reverse();
@@ -411,6 +433,9 @@ impl AST {
                                 return;
                             }
                         };
+                        if parts.is_empty() {
+                            parts.push(TemplatePart::Str(Vec::new()));
+                        }
                         parts.reverse();
                         let mut parts_iter = parts.drain(0..);
                         ops.push(Op::Noop, expr.pos().clone());
